@@ -111,6 +111,8 @@ CONFIGS = {
   # not explored by TLC: the constants under which the MODEL is run on the fixed-shape random programs (profile soupfix)
   "soupfix": dict(np=4, prio=[0, 0, 1, 2], auto=[1, 1, 1, 1], nres=1, poolcap=2, bufcap=2, oqcap=1, pqcap=1, maxlen=12, maxtime=99,
                alphabet=[I("hold", 1)]),
+  "soupfix2": dict(np=5, prio=[0, 1, 1, 0, 2], auto=[1, 1, 1, 1, 1], nres=2, poolcap=3, bufcap=3, oqcap=2, pqcap=2, maxlen=12, maxtime=99,
+               uevs=[(1, 1, I("csig"))], alphabet=[I("hold", 1)]),
   # subscribe / unsubscribe: is a release forwarded exactly while the condition is registered?
   "cond2u": dict(np=2, prio=[0, 0], auto=[1, 1], nres=1, poolcap=1, maxlen=5, maxtime=4,
                alphabet=[I("hold", 1), I("cwait", 2), I("csub", 0), I("cunsub", 0), I("acq", 1), I("rel", 1)]),
